@@ -637,6 +637,16 @@ fn schedvm_programs() -> Vec<(String, Vec<f64>, String)> {
             (0..12).map(|i| i as f64).collect(), "a self-rescheduling chain while 1088 far-future tasks are pending".to_string()));
     v.push((format!("let x = 0.0\nfn bump(){{\n  x = x + 1.0\n}}\nfn s1(){{\n  bump@3.0\n}}\n{bulk}s1024()\ns64()\nfn dsp(){{\n  x\n}}\n"),
             (0..6).map(|t| if t >= 3 { 1088.0 } else { 0.0 }).collect(), "1088 tasks due at the same sample".to_string()));
+    // a capturing closure that stays reachable through a holder (array element, assigned global) is scheduled again
+    // after all of its pending tasks have fired: the handle must still denote the closure ("never dropped")
+    v.push(("let x = 0.0\nfn make(c){\n    let f = | | { x = x + c }\n    f@2.0\n    [f]\n}\nlet cbs = make(1.0)\nfn again(){\n    cbs[0]@(now+2.0)\n    0.0\n}\nfn dsp(){\n    let d = if (now == 5.0) { again() } else { 0.0 }\n    x + d\n}\n".to_string(),
+            vec![0.0, 0.0, 1.0, 1.0, 1.0, 1.0, 1.0, 2.0, 2.0, 2.0, 2.0, 2.0], "a closure kept in an array is scheduled again after its first task has fired".to_string()));
+    v.push(("let x = 0.0\nfn make(c){\n    let f = | | { x = x + c }\n    f@1.0\n    f@3.0\n    [f, f]\n}\nlet cbs = make(1.0)\nfn again(d){\n    cbs[1]@(now+d)\n    0.0\n}\nfn dsp(){\n    let a = if (now == 5.0) { again(2.5) } else { 0.0 }\n    let b = if (now == 8.0) { again(1.0) } else { 0.0 }\n    x + a + b\n}\n".to_string(),
+            vec![0.0, 1.0, 1.0, 2.0, 2.0, 2.0, 2.0, 3.0, 3.0, 4.0, 4.0, 4.0], "a closure kept in an array fires twice and is scheduled again twice (one fractional time)".to_string()));
+    v.push(("let x = 0.0\nfn mk(c){\n    | | { x = x + c }\n}\nlet holder = mk(100.0)\nfn setup(c){\n    holder = | | { x = x + c }\n    holder@2.0\n}\nlet _ = setup(1.0)\nfn again(){\n    holder@(now+3.0)\n    0.0\n}\nfn dsp(){\n    let d = if (now == 4.0) { again() } else { 0.0 }\n    x + d\n}\n".to_string(),
+            vec![0.0, 0.0, 1.0, 1.0, 1.0, 1.0, 1.0, 2.0, 2.0, 2.0], "a closure assigned to a global from inside a function is scheduled again after its queue has drained".to_string()));
+    v.push(("let x = 0.0\nfn step(n){\n    x = x + n\n    | | { step(n+1.0) }@(now + n)\n}\nlet _ = step(1.0)\nfn dsp(){ x }\n".to_string(),
+            vec![1.0, 3.0, 3.0, 6.0, 6.0, 6.0, 10.0, 10.0], "a chain of one-shot closures, each created by the task before it".to_string()));
     v
 }
 /// (program A, program B, samples before the swap, expected outputs after the swap, description)
